@@ -4,6 +4,7 @@ The painters evaluate the objective on a plotting grid inside their callbacks.  
 proxy below removes them from the problem's evaluation log as soon as the callback returns, so that the oracles that
 compare the solver's state with "the evaluations made" keep seeing exactly the trials (and the refinement)."""
 import shutil
+import sys
 import tempfile
 
 from hypothesis import strategies as st
@@ -43,29 +44,38 @@ def attach(run, spec):
     class Proxy(Listener):
         def BeforeMethodStart(self, method):
             k = len(log)
+            tracer = sys.gettrace()
+            sys.settrace(None)         # (the painter's work is not the solver's: the executed-line bound does not count it)
             try:
                 inner.BeforeMethodStart(method)
             except Exception as e:     # a painter's own failure is C13's business
                 errors.append(repr(e))
             finally:
+                sys.settrace(tracer)
                 del log[k:]
 
         def OnEndIteration(self, newTrials, currentSolution):
             k = len(log)
+            tracer = sys.gettrace()
+            sys.settrace(None)         # (the painter's work is not the solver's: the executed-line bound does not count it)
             try:
                 inner.OnEndIteration(newTrials, currentSolution)
             except Exception as e:     # a painter's own failure is C13's business
                 errors.append(repr(e))
             finally:
+                sys.settrace(tracer)
                 del log[k:]
 
         def OnMethodStop(self, data, finalSolution, stopped):
             k = len(log)
+            tracer = sys.gettrace()
+            sys.settrace(None)         # (the painter's work is not the solver's: the executed-line bound does not count it)
             try:
                 inner.OnMethodStop(data, finalSolution, stopped)
             except Exception as e:     # a painter's own failure is C13's business
                 errors.append(repr(e))
             finally:
+                sys.settrace(tracer)
                 del log[k:]
 
     run.solver.AddListener(Proxy())
